@@ -753,9 +753,11 @@ def digit_strings(ctx):
             ctx.ob("R07.8", "get_number|%s|seed-is-consumed" % d["n"], ok, fn.loc(st),
                    "`%s` is seeded from `%s`, %s" % (d["n"], src["n"], "a character already consumed" if not peeked else "which was only peeked (`%s`), and extended with get(): the first digit enters twice" % show(last[1])[:50]))
     ctx.floor("R07.8", "digit strings seeded from a character", n, 1)
-    conv = [c for c in fn.walk() if c.get("k") == "call" and callee_short(c) in ("strtol", "strtoul", "strtoll", "strtoull", "pstrtod")]
+    conv = [c for c in fn.walk() if c.get("k") == "call" and callee_short(c) in ("strtol", "strtoul", "strtoll", "strtoull", "pstrtod", "stoi", "stol", "stoll", "stoul", "stoull", "stod", "stold", "stof")]
     for c in conv:
         a0 = strip_casts(peel(c["a"][0])) if c.get("a") else None
+        while a0 is not None and a0.get("k") == "ctor" and len([q for q in a0.get("a", []) if q.get("k") != "defarg"]) == 1:
+            a0 = strip_casts(peel(a0["a"][0]))
         if a0 is not None and a0.get("k") == "call" and callee_short(a0) in ("c_str", "data") and "this" in a0:
             a0 = strip_casts(peel(a0["this"]))
         r = local_ref(a0)
